@@ -111,7 +111,7 @@ func setupC11(env *simEnv) {
 		S := internal.Snapshot(rd.Store)
 		if errs := append(residentErrors(S), accountingErrors(S, true)...); len(errs) > 0 {
 			// the saving cache itself is inconsistent: C02's business, not a round-trip defect
-			simrt.Probe("c11.saving-cache-inconsistent")
+			probe("c11.saving-cache-inconsistent")
 			return
 		}
 		saved := savedSet(S)
@@ -157,7 +157,7 @@ func setupC11(env *simEnv) {
 		moved := "split-unmoved"
 		if S.Regions[0].Capacity != fresh.Regions[0].Capacity && same {
 			moved = "window-moved"
-			simrt.Probe("c11.window-moved-before-save")
+			probe("c11.window-moved-before-save")
 		}
 		costs := "unit-costs"
 		if rd.Sc.Params["mixedcosts"] == 1 {
@@ -214,6 +214,29 @@ func setupC11(env *simEnv) {
 							break
 						}
 					}
+					// does the saved region fit the fresh cache's region of the same name?
+					fit := "saved-region-fits-fresh-capacity"
+					var savedCost int64
+					for _, r2 := range S.Regions {
+						if r2.Name == rg {
+							savedCost = r2.Len
+						}
+					}
+					switch rg {
+					case "window":
+						if savedCost > int64(fresh.Regions[0].Capacity) {
+							fit = "saved-region-exceeds-fresh-capacity"
+						}
+					case "protected":
+						if savedCost > int64(fresh.Regions[2].Capacity) {
+							fit = "saved-region-exceeds-fresh-capacity"
+						}
+					case "probation":
+						if S.Regions[1].Len+S.Regions[2].Len > int64(fresh.SlruMax) || S.Regions[2].Len > int64(fresh.Regions[2].Capacity) {
+							fit = "saved-region-exceeds-fresh-capacity"
+						}
+					}
+					moved += "," + fit
 					rd.violate("C11/entry-dropped/"+rg+","+moved, fmt.Sprintf("same MaxSize %d: %d unexpired entries saved in region %s, %d restored (e.g. key %d missing); saved window capacity %d, fresh window capacity %d", target, len(want), rg, len(got), missing, S.Regions[0].Capacity, fresh.Regions[0].Capacity))
 					continue
 				}
@@ -230,8 +253,8 @@ func setupC11(env *simEnv) {
 		if len(saved) == 0 {
 			rd.Nontrivial = -1
 		}
-		simrt.ProbeN("c11.saved-entries", len(saved))
-		simrt.ProbeN("c11.restored-entries", len(loaded))
+		probeN("c11.saved-entries", len(saved))
+		probeN("c11.restored-entries", len(loaded))
 		api2.store.Close()
 	}
 }
